@@ -332,8 +332,8 @@ def to_disk(f, d, h, name='src.nc', fmt='netcdf', res=None, foreign=False):
                    list(f.variables.keys()))
         # (only for checks whose oracle snapshots the opened file: packing
         # is lossy)
-        foreign = foreign and fmt == 'netcdf' and \
-            zlib.crc32(key.encode()) % 3 == 0
+        foreign = foreign and fmt == 'netcdf' and (
+            foreign == 'always' or zlib.crc32(key.encode()) % 3 == 0)
         if foreign:
             try:
                 write_foreign(f, path,
